@@ -448,14 +448,6 @@ impl CodegenContext {
         Ok(symbol_nx)
     }
 
-    fn remove_symbol<I: Into<IdentifierPath>>(&mut self, id: I) {
-        let id = id.into();
-        let path = self.current_scope.join(&id);
-        if let Some(nx) = self.symbols.try_index(self.symbols.root, path) {
-            self.symbols.remove(nx);
-        }
-    }
-
     pub fn get_evaluator(&self) -> Evaluator {
         self.get_evaluator_for_scope(self.current_scope_nx)
     }
@@ -948,14 +940,16 @@ impl CodegenContext {
             } => {
                 if let Some(loop_count) = self.evaluate_expression_as_i64(expr, true)? {
                     for index in 0..loop_count {
-                        self.with_scope(loop_scope, Some(block), |s| {
+                        // Every iteration lives in a scope of its own, just like the same block written out by hand
+                        // would. Its '-' and '+' symbols, its labels and its 'index' constant belong to that iteration only.
+                        let iteration_scope =
+                            Identifier::new(format!("{}_{}", loop_scope, index));
+                        self.with_scope(&iteration_scope, Some(block), |s| {
                             s.add_symbol(
                                 "index",
                                 s.symbol(expr.span, index, SymbolType::Constant),
                             )?;
-                            let result = s.emit_tokens(&block.inner);
-                            s.remove_symbol("index");
-                            result
+                            s.emit_tokens(&block.inner)
                         })?;
                     }
                 }
